@@ -98,11 +98,12 @@ def programs(chk, d, parts, seed, timeout=1500, parallel=8):
     return recs
 
 
-def family(chk, d, tier, seed, hosts, typed_every=4, host_every=9):
+def family(chk, d, tier, seed, hosts, typed_every=None, host_every=9):
     """Inputs of class "macro".  Every program is compiled by itself with -Fap; every typed_every-th also inside a typed
     context with -Fao (then the typed-only certificate "no-meaning" counts as well); every host_every-th is put
     into a valid host text (hosts: [(id, bytes, args)]; appended at its end, or inserted after its first line)."""
     lv = {"L1": 0, "L2": 0, "L3": 0, "L4": 0}
+    typed_every = typed_every or (4 if tier == "quick" else 5)
     if tier == "quick":
         mix = '{"mix"}'
         parts = [(dict(lv, L1=3, DStride=1, Stride=1), 1),
@@ -110,11 +111,11 @@ def family(chk, d, tier, seed, hosts, typed_every=4, host_every=9):
                  (dict(lv, L3=1, DStride=14, Stride=13, VisModes=mix), 2)]
     else:
         mix = '{"mix"}'
-        parts = [(dict(lv, L1=3, DStride=1, Stride=1, Rots="{0, 1, 2, 3, 5, 7, 11, 13}"), 1),
-                 (dict(lv, L2=2, DStride=1, Stride=2, VisModes=mix), 8),
+        parts = [(dict(lv, L1=3, DStride=1, Stride=1, Rots="{0, 1, 2, 3}"), 1),
+                 (dict(lv, L2=2, DStride=1, Stride=3, VisModes=mix), 8),
                  (dict(lv, L2=3, DStride=61, Stride=5, VisModes=mix), 8),
-                 (dict(lv, L3=1, DStride=1, Stride=8, VisModes=mix), 8),
-                 (dict(lv, L4=1, DStride=9, Stride=8, VisModes=mix), 8)]
+                 (dict(lv, L3=1, DStride=1, Stride=12, VisModes=mix), 8),
+                 (dict(lv, L4=1, DStride=9, Stride=12, VisModes=mix), 8)]
     recs = programs(chk, d, parts, seed if tier != "quick" else 0, parallel=4 if tier == "quick" else 12)
     recs.sort(key=lambda r: json.dumps(r, sort_keys=True))
     ins = []
